@@ -118,13 +118,37 @@ func roundTrip(c *mon.Ctx, types []typeEntry) {
 		if e2 := v2.Encode(); !bytes.Equal(e1, e2) {
 			k.Violation("encode:nondeterministic:equal-values:"+te.name, "Encode of two equal values gives different bytes", wit(map[string]any{"second": hx(e2)}))
 		}
+		// A string whose NFC (as computed by the normaliser the codec uses) is not canonically
+		// equivalent to it, or is not accepted as normalised, breaks the round trip of whatever
+		// type contains it: one root cause, reported under one key instead of one per type.
+		sus := suspectString(v)
+		if sus != "" {
+			k.Count("values_with_string_the_normaliser_mishandles", 1)
+		}
+		stringBug := func(err error, diff string) bool {
+			if sus == "" {
+				return false
+			}
+			w := wit(map[string]any{"string": fmt.Sprintf("%+q", sus), "nfc_by_normaliser": fmt.Sprintf("%+q", norm.NFC.String(sus)), "err": fmt.Sprint(err), "field": diff})
+			if err != nil && strings.Contains(err.Error(), "not normalized") {
+				k.Violation("string:nfc-output-rejected-by-reader", "WriteString emits a string that readString rejects as not normalised: Decode rejects the output of Encode", w)
+				return true
+			}
+			if strings.HasSuffix(diff, "(string)") {
+				k.Violation("string:nfc-changes-text", "WriteString changes a string into one that is not canonically equivalent: Decode(Encode(v)) differs from v", w)
+				return true
+			}
+			return false
+		}
 		// lenient decoding
 		d := newZero(te.proto)
 		if err := d.Decode(e1); err != nil {
-			k.Violation("decode:rejects-own-encoding:"+te.name+":"+errClass(err), "Decode rejects the output of Encode", wit(map[string]any{"err": err.Error()}))
+			if !stringBug(err, "") {
+				k.Violation("decode:rejects-own-encoding:"+te.name+":"+errClass(err), "Decode rejects the output of Encode", wit(map[string]any{"err": err.Error()}))
+			}
 		} else {
 			k.Count("decode_accepted_own", 1)
-			if diff := equalValues(v, d); diff != "" {
+			if diff := equalValues(v, d); diff != "" && !stringBug(nil, diff) {
 				k.Violation("roundtrip:field-differs:"+diff, "Decode(Encode(v)) differs from v (strings compared in NFC, absent == empty)", wit(map[string]any{"decoded": fmt.Sprintf("%+v", d), "field": diff}))
 			}
 			if e3 := d.Encode(); g.nilNested {
@@ -148,11 +172,13 @@ func roundTrip(c *mon.Ctx, types []typeEntry) {
 			return
 		}
 		if serr != nil {
-			k.Violation("strict:rejects-own-encoding:"+te.name+":"+errClass(serr), "DecodeStrict rejects the output of Encode", wit(map[string]any{"err": serr.Error()}))
+			if !stringBug(serr, "") {
+				k.Violation("strict:rejects-own-encoding:"+te.name+":"+errClass(serr), "DecodeStrict rejects the output of Encode", wit(map[string]any{"err": serr.Error()}))
+			}
 			return
 		}
 		k.Count("strict_accepted_own", 1)
-		if diff := equalValues(v, s); diff != "" {
+		if diff := equalValues(v, s); diff != "" && !stringBug(nil, diff) {
 			k.Violation("strict-roundtrip:field-differs:"+diff, "DecodeStrict(Encode(v)) differs from v", wit(map[string]any{"decoded": fmt.Sprintf("%+v", s), "field": diff}))
 		}
 		if e4 := s.Encode(); !bytes.Equal(e1, e4) {
@@ -225,8 +251,28 @@ func primitives(c *mon.Ctx) {
 			if g, err := rd.ReadBytes(6, true); err != nil || !bytes.Equal(g, bs) {
 				bad("bytes", hx(bs), hx(g), err)
 			}
-			if g, err := rd.ReadString(7, true); err != nil || g != norm.NFC.String(s) {
-				bad("string", fmt.Sprintf("%q", s), fmt.Sprintf("%q", g), err)
+			misaligned := false // a failed read leaves the reader inside a field: later fields are not judged
+			strBad := func(kind, orig, got string, err error) {
+				if err != nil {
+					misaligned = true
+				}
+				switch {
+				case nfcSuspect(orig) && err != nil:
+					k.Violation("string:nfc-output-rejected-by-reader", "WriteString emits a string that readString rejects as not normalised", map[string]any{"string": fmt.Sprintf("%+q", orig), "nfc_by_normaliser": fmt.Sprintf("%+q", norm.NFC.String(orig)), "err": err.Error()})
+				case nfcSuspect(orig):
+					k.Violation("string:nfc-changes-text", "WriteString changes a string into one that is not canonically equivalent", map[string]any{"string": fmt.Sprintf("%+q", orig), "read_back": fmt.Sprintf("%+q", got)})
+				default:
+					bad(kind, fmt.Sprintf("%+q", orig), fmt.Sprintf("%+q", got), err)
+				}
+			}
+			if g, err := rd.ReadString(7, true); err != nil || !canonEq(g, s) {
+				strBad("string", s, g, err)
+			} else if !norm.NFC.IsNormalString(g) {
+				bad("string-not-nfc-after-read", fmt.Sprintf("%+q", s), fmt.Sprintf("%+q", g), nil)
+			}
+			if misaligned {
+				k.Count("primitive_messages_cut_short_after_failed_string_read", 1)
+				continue
 			}
 			if g, err := rd.ReadUInts(8); err != nil || !eqSlice(g, us) {
 				bad("packed-uint64", us, g, err)
@@ -241,14 +287,28 @@ func primitives(c *mon.Ctx) {
 				bad("packed-bool", bools, g, err)
 			}
 			if g, err := rd.ReadStrings(12); err != nil || len(g) != len(strs) {
-				bad("strings", strs, g, err)
+				susp := ""
+				for _, x := range strs {
+					if nfcSuspect(x) {
+						susp = x
+					}
+				}
+				if susp != "" && err != nil {
+					strBad("strings", susp, "", err)
+				} else {
+					bad("strings", strs, g, err)
+				}
 			} else {
 				for j := range g {
-					if g[j] != norm.NFC.String(strs[j]) {
-						bad("strings", strs, g, nil)
+					if !canonEq(g[j], strs[j]) {
+						strBad("strings", strs[j], g[j], nil)
 						break
 					}
 				}
+			}
+			if misaligned {
+				k.Count("primitive_messages_cut_short_after_failed_string_read", 1)
+				continue
 			}
 			if g, err := rd.ReadBytesArray(13); err != nil || len(g) != len(bss) {
 				bad("bytes-array", len(bss), len(g), err)
@@ -331,6 +391,13 @@ func judgeTx(k *mon.Case, in []byte, kind string, nt bool) bool {
 func genTx(r *rand.Rand, small bool) *blockchain.Transaction {
 	v, _, _ := newValue(&blockchain.Transaction{}, r, true)
 	tx := v.(*blockchain.Transaction)
+	// strings the normaliser mishandles are judged in the roundtrip and primitives streams
+	if nfcSuspect(tx.Module) {
+		tx.Module = "token"
+	}
+	if nfcSuspect(tx.Command) {
+		tx.Command = "transfer"
+	}
 	if small {
 		if len(tx.Params) > 40 {
 			tx.Params = tx.Params[:40]
@@ -501,7 +568,11 @@ func ids(c *mon.Ctx) {
 			}
 			assets := []*blockchain.BlockAsset{}
 			for j, n := 0, r.Intn(3); j < n; j++ {
-				assets = append(assets, &blockchain.BlockAsset{Module: fmt.Sprintf("m%d", j) + genString(r), Data: genBytes(r)})
+				m := fmt.Sprintf("m%d", j) + genString(r)
+				if nfcSuspect(m) {
+					m = fmt.Sprintf("m%d", j)
+				}
+				assets = append(assets, &blockchain.BlockAsset{Module: m, Data: genBytes(r)})
 			}
 			blk := &blockchain.Block{Header: hdr, Transactions: txs, Assets: assets}
 			blk.Init()
